@@ -44,7 +44,7 @@ fn tails(alpha: &[Pkt]) -> Vec<(String, Vec<u8>)> {
 
 pub fn run(tier: Tier) -> i32 {
     let rep = Report::new("C10", tier);
-    rep.set_rule("(1) lemma: for every receiver state of the C08 closure (1 slot: closure; 2 slots: depth 7, thorough closure) x every lemma packet of the 46-packet alphabet (valid packets and those rejected for bad CRC / unknown id / no storage / unknown mandatory extension / unresolvable re-use / oversize) x every tail (1..4 zero bytes, every alphabet packet, FF*8, extension-like bytes, zero label, one byte): decap(q||t) equals decap(q) in outcome, consumed length = |q| and successor snapshot; (2) 2..=6 zero bytes give Padding consuming all in every state; (3) all frames of <= 3 (thorough 4) packets drawn from two real fragment trains continuing across frames plus complete packets and rejected packets, followed by 0..=5 zero bytes, are walked by consumed lengths and compared with stand-alone decapsulation; (4) every packet of the corpus is checked not to read as padding. distinct = (packet, outcome)");
+    rep.set_rule("(1) lemma: for every receiver state of the C08 closure (1 slot: closure; 2 slots: depth 7, thorough closure) x every lemma packet of the 46-packet alphabet (valid packets and those rejected for bad CRC / unknown id / no storage / unknown mandatory extension / unresolvable re-use / oversize) x every tail (1..4 zero bytes, every alphabet packet, FF*8, extension-like bytes, zero label, one byte): decap(q||t) equals decap(q) in outcome, consumed length = |q| and successor snapshot; (2) 2..=6 zero bytes give Padding consuming all in every state; (3) all frames of <= 3 (thorough 4) packets drawn from two real fragment trains continuing across frames plus complete packets and rejected packets, followed by 0..=5 zero bytes, are walked by consumed lengths and compared with stand-alone decapsulation; (4) every packet of the corpus is checked not to read as padding; (5) frames of 4097..70000 bytes filled greedily by the real encapsulator with PDUs around and above the 4095-byte limit (fragments continuing across frames), walked by consumed lengths against a twin receiver fed each packet alone, every PDU delivered once in order. distinct = (packet, outcome)");
     rep.assume("frames longer than 4 packets follow from the lemma by induction on the position (the successor state after each packet is a state of the closure, where the lemma was checked)");
     let mgr = mgr_std();
     for slots in [1usize, 2] {
@@ -113,7 +113,146 @@ pub fn run(tier: Tier) -> i32 {
         rep.sample(slots as u64, || json!({"slots": slots, "state_history": ex.path(k).iter().map(|o| sys.op_json(o)).collect::<Vec<_>>(), "lemma_packets": alpha.iter().filter(|p| lemma_packet(&p.name)).count(), "tails": tl.len()}));
     }
     end_to_end(&rep, tier);
+    large_frames(&rep, tier);
     rep.finish(true)
+}
+
+/// (5) frames of BBFrame size and beyond, filled greedily by the real encapsulator with PDUs around and above the
+/// 4095-byte GSE length limit (fragments continuing across frames), walked by consumed lengths on one receiver and
+/// compared packet by packet with a twin receiver that gets each packet alone; every PDU must come out once, in order.
+fn large_frames(rep: &Report, tier: Tier) {
+    let mgr = mgr_std();
+    let pdu_sets: Vec<Vec<usize>> = if tier.thorough() {
+        vec![vec![300, 13000, 100, 40], vec![4090, 4094, 4095, 4096], vec![8200, 1, 4093, 9000], vec![4087, 4088, 4089, 4091, 4092], vec![65000, 5], vec![12285, 12286, 12287], vec![8189, 8190, 8191, 8192]]
+    } else {
+        vec![vec![300, 13000, 100, 40], vec![4090, 4094, 4095, 4096], vec![8200, 1, 4093, 9000], vec![8189, 8190, 8191, 8192]]
+    };
+    let frame_sizes: Vec<usize> = if tier.thorough() { vec![4097, 4098, 4099, 4100, 4200, 5000, 8100, 8192, 16384, 70000] } else { vec![4097, 4098, 4100, 8100, 70000] };
+    let jobs: Vec<(usize, usize, Lbl)> = (0..pdu_sets.len()).flat_map(|i| frame_sizes.iter().map(move |&f| (i, f))).flat_map(|(i, f)| [L6A, Lbl::Bcast].into_iter().map(move |l| (i, f, l))).collect();
+    jobs.par_iter().for_each(|&(si, fsize, l)| {
+        if rep.over_time() {
+            rep.cap("large frames: wall cap");
+            return;
+        }
+        let mut acc = Acc::default();
+        let pdus: Vec<Vec<u8>> = pdu_sets[si].iter().enumerate().map(|(k, &n)| pdu(n, (k % 4) as u8)).collect();
+        let mut enc = Encapsulator::new(DefaultCrc {});
+        let st = 70000usize;
+        let mut walker = RxS::new(4, st, &[st, st, st]).build(DefaultCrc {}, mgr.clone());
+        let mut twin = RxS::new(4, st, &[st, st, st]).build(DefaultCrc {}, mgr.clone());
+        let mut delivered: Vec<Vec<u8>> = vec![];
+        let mut cur: Option<(usize, Ctx)> = None; // PDU being continued
+        let mut next_pdu = 0usize;
+        let mut bad: Option<String> = None;
+        let mut frames = 0usize;
+        let wit = |frames: usize| json!({"pdu_lengths": pdu_sets[si], "frame_size": fsize, "label": l.short(), "frames_built": frames});
+        'outer: while (cur.is_some() || next_pdu < pdus.len()) && frames < 64 {
+            // build one frame
+            let mut frame = vec![0u8; fsize];
+            let mut lens: Vec<usize> = vec![];
+            let mut off = 0usize;
+            loop {
+                let room = &mut frame[off..];
+                if room.len() < 2 {
+                    break;
+                }
+                let out = match cur {
+                    Some((pi, ctx)) => do_encap_frag(&enc, &pdus[pi], ctx, room),
+                    None if next_pdu < pdus.len() => do_encap(&mut enc, &pdus[next_pdu], (next_pdu % 4) as u8, 0x0800, l, room),
+                    None => break,
+                };
+                acc.calls += 1;
+                match out {
+                    EncOut::Completed(n) => {
+                        if cur.is_none() {
+                            next_pdu += 1;
+                        }
+                        cur = None;
+                        lens.push(n);
+                        off += n;
+                    }
+                    EncOut::Fragmented(n, ctx) => {
+                        let pi = match cur {
+                            Some((pi, _)) => pi,
+                            None => {
+                                next_pdu += 1;
+                                next_pdu - 1
+                            }
+                        };
+                        cur = Some((pi, ctx));
+                        lens.push(n);
+                        off += n;
+                    }
+                    EncOut::Err(_) => break, // no room left in this frame
+                    EncOut::Panic(p) => {
+                        bad = Some(format!("the encapsulator panics at {}", p));
+                        break 'outer;
+                    }
+                }
+                if off > fsize {
+                    bad = Some(format!("the encapsulator reports {} bytes written into the {} bytes left of the frame", lens.last().unwrap(), fsize + lens.last().unwrap() - off));
+                    break 'outer;
+                }
+            }
+            frames += 1;
+            if lens.is_empty() {
+                bad = Some("the encapsulator accepts no packet in an empty frame".into());
+                break;
+            }
+            // the rest of the frame is zero padding already; walk it
+            enc.reset_last_label();
+            let mut o = 0usize;
+            for (k, &n) in lens.iter().enumerate() {
+                if refm::header_fields(u16::from_be_bytes([frame[o], frame[o + 1]])).is_none() {
+                    bad = Some(format!("frame {} packet #{} at offset {} reads as padding", frames, k, o));
+                    break 'outer;
+                }
+                let alone = do_decap(&mut twin, &frame[o..o + n]);
+                let inframe = do_decap(&mut walker, &frame[o..]);
+                acc.transitions += 2;
+                acc.calls += 2;
+                acc.compared += 1;
+                if alone != inframe {
+                    bad = Some(format!("frame {} packet #{} ({} bytes at offset {}): alone -> {}, in the frame -> {}", frames, k, n, o, alone.brief().chars().take(160).collect::<String>(), inframe.brief().chars().take(160).collect::<String>()));
+                    break 'outer;
+                }
+                match &inframe {
+                    DecapOut::Completed { buf, meta, consumed } if *consumed == n => {
+                        delivered.push(buf[..meta.pdu_len.min(buf.len())].to_vec());
+                        for dd in [&mut twin, &mut walker] {
+                            let _ = dd.provision_storage(vec![0u8; st].into_boxed_slice());
+                        }
+                    }
+                    DecapOut::Fragmented { consumed, .. } if *consumed == n => {}
+                    other => {
+                        bad = Some(format!("frame {} packet #{} ({} bytes): {}", frames, k, n, other.brief().chars().take(200).collect::<String>()));
+                        break 'outer;
+                    }
+                }
+                o += n;
+            }
+            if fsize - o >= 2 {
+                let p = do_decap(&mut walker, &frame[o..]);
+                let _ = do_decap(&mut twin, &frame[o..]);
+                if p != (DecapOut::Padding { consumed: fsize - o }) {
+                    bad = Some(format!("frame {}: the {} trailing zero bytes -> {}", frames, fsize - o, p.brief()));
+                    break;
+                }
+            }
+            walker.reset_last_label();
+            twin.reset_last_label();
+        }
+        acc.states += frames as u64;
+        if bad.is_none() && delivered != pdus {
+            bad = Some(format!("{} PDUs delivered, {} sent, or contents/order differ", delivered.len(), pdus.len()));
+        }
+        if let Some(b) = bad {
+            rep.violation(&format!("C10|large-frames|{}", if fsize > 4097 { "frame>4097" } else { "frame=4097" }), (si * 100000 + fsize) as u64, || (format!("PDUs of {:?} bytes packed into frames of {} bytes (label {}): {}", pdu_sets[si], fsize, l.short(), b), wit(frames)));
+        }
+        acc.outcome(&format!("large-frames:{}", if fsize > 4097 { ">4097" } else { "4097" }));
+        rep.merge(acc);
+    });
+    rep.part(json!({"part": "large frames", "pdu_sets": pdu_sets, "frame_sizes": frame_sizes, "labels": 2}));
 }
 
 /// (3) + (4): frames from the real encapsulator
